@@ -326,7 +326,7 @@ Proof.
     apply in_or_app. right. now left. }
   unfold puts in Hin. apply in_flat_map in Hin. destruct Hin as (e & He & Hv).
   apply In_firstn in He. unfold provenance_ok in H. rewrite forallb_forall in H. specialize (H _ He).
-  destruct e as [j x|j|j o|r j x|r j o|r j|r j|r j|r]; try (now destruct Hv).
+  destruct e as [j x|j|j o|r j x|r j o|r j|r j|r j|r|r]; try (now destruct Hv).
   destruct (j =? i) eqn:E; [|now destruct Hv]. apply N.eqb_eq in E. subst j.
   destruct Hv as [Hv|[]]. unfold puts. rewrite <- Hv. exact H.
 Qed.
